@@ -6,7 +6,13 @@
 
     [frag_expand fs d] lists (offset, size, start time, duration, composition
     offset) of every sample of the track's runs [fs] in file order, where [d]
-    is the movie-level (trex) default duration.  The sync flag is not part of C09. *)
+    is the movie-level (trex) default duration.  The sync flag is not part of C09.
+
+    [frag_consistent] admits track fragments WITHOUT a track run ([fr_has_trun f = false],
+    a traf with only tfhd [+ tfdt]): such a fragment carries no run data, needs no
+    decode-time box and defines no samples; the samples of the other fragments are
+    numbered across it, and the fragment index the lookup uses (into [trafs] and
+    [moof_offsets]) still counts it. *)
 From MP4 Require Import Fragment FragProofs.
 Open Scope list_scope.
 Open Scope N_scope.
@@ -79,6 +85,74 @@ Example frag_example :
      | _ => False
      end.
 Proof. vm_compute. repeat split; reflexivity. Qed.
+
+(** ** Non-vacuity for a track fragment WITHOUT a track run: a run of 2 samples, a fragment
+    with only tfhd (default duration, explicit base data offset) and no tfdt, a run of 3
+    samples.  The fragment without a run is consistent, contributes no sample, and the samples
+    are numbered across it: sample 3 is the first sample of the THIRD fragment (index 2 of the
+    full fragment list), at the third moof offset 900 plus the data offset 16. *)
+Definition ex2_frags : list fragrun := [
+  mkFragrun 100 None       (Some 512) (Some 0)    true  0x201 2 (Some 8%Z)  []  [10; 20]    [];
+  mkFragrun 500 (Some 777) (Some 333) None        false 0     0 None        []  []          [];
+  mkFragrun 900 None       None       (Some 1024) true  0xB01 3 (Some 16%Z) [100; 200; 300] [4; 5; 6] [0; 4294967295; 7]
+].
+Definition ex2_track : track := mkTrack 1 (mkTables [] 0 0 [] None None [] None None) ex2_frags 1000.
+Definition ex2_data : bytes := map (fun i => N.of_nat i mod 256) (seq 0 940).
+
+Example frag_example_without_run :
+  frag_consistent ex2_frags 1000 = true
+  /\ map (run_consistent 1000) ex2_frags = [true; true; true]
+  /\ frag_expand ex2_frags 1000 =
+       [ (108, 10, 0, 512, 0%Z); (118, 20, 512, 512, 0%Z);
+         (916, 4, 1024, 100, 0%Z); (920, 5, 1124, 200, (-1)%Z); (925, 6, 1324, 300, 7%Z) ]
+  /\ sample_count ex2_track = 5
+  /\ map (find_traf ex2_track) [0; 1; 2; 3; 4; 5; 6]
+     = [None; Some (0, 0); Some (0, 1); Some (2, 0); Some (2, 1); Some (2, 2); None]
+  /\ sample_offset Dbg ex2_track 3 = Ok (900 + 16)
+  /\ map (fun k => (sample_offset Dbg ex2_track k, sample_size ex2_track k, sample_time Dbg ex2_track k,
+                    sample_rendering_offset ex2_track k)) [1; 2; 3; 4; 5]
+     = map (fun x => let '(o, s, t, d, c) := x in (Ok o, Ok s, Ok (t, d), c)) (frag_expand ex2_frags 1000)
+  /\ map (fun k => (sample_offset Rel ex2_track k, sample_size ex2_track k, sample_time Rel ex2_track k,
+                    sample_rendering_offset ex2_track k)) [1; 2; 3; 4; 5]
+     = map (fun x => let '(o, s, t, d, c) := x in (Ok o, Ok s, Ok (t, d), c)) (frag_expand ex2_frags 1000)
+  /\ map (fun k => fst (run (read_sample Rel ex2_track k) (stream_at ex2_data 3))) [0; 6]
+     = [Err EData; Err EData]
+  /\ match fst (run (read_sample Dbg ex2_track 3) (stream_at ex2_data 0)) with
+     | Ok (Some s) => (sm_start_time s, sm_duration s, sm_rendering_offset s, sm_bytes s)
+                      = (1024, 100, 0%Z, [148; 149; 150; 151])
+     | _ => False
+     end.
+Proof. vm_compute. repeat split; reflexivity. Qed.
+
+(** a fragment list made only of fragments without a run is consistent and has no samples *)
+Example frag_example_only_without_run :
+  let fs := [mkFragrun 500 None None None false 0 0 None [] [] []] in
+  frag_consistent fs 1000 = true /\ frag_expand fs 1000 = []
+  /\ sample_count (mkTrack 1 (mkTables [] 0 0 [] None None [] None None) fs 1000) = 0
+  /\ fst (run (read_sample Dbg (mkTrack 1 (mkTables [] 0 0 [] None None [] None None) fs 1000) 1) (stream_at [] 0))
+     = Err EData.
+Proof. vm_compute. repeat split; reflexivity. Qed.
+
+(** a fragment without a run that nevertheless carries run data is rejected *)
+Example frag_without_run_with_data_inconsistent :
+  run_consistent 1000 (mkFragrun 500 None None None false 0 1 None [] [] []) = false
+  /\ run_consistent 1000 (mkFragrun 500 None None None false 0 0 None [] [4] []) = false
+  /\ run_consistent 1000 (mkFragrun 500 None None None false 1 0 None [] [] []) = false
+  /\ run_consistent 1000 (mkFragrun 500 None None None false 0 0 (Some 0%Z) [] [] []) = false.
+Proof. vm_compute. repeat split; reflexivity. Qed.
+
+(** the view [Reader.traf_fragrun] builds for a decoded traf without a trun is such a fragment: it is consistent as
+    soon as its header fields fit their widths (which the decoder guarantees) *)
+From MP4 Require Reader.
+Lemma traf_without_trun_consistent : forall t off d, BoxTraf.traf_trun t = None ->
+  fr_has_trun (Reader.traf_fragrun t off) = false /\
+  run_consistent d (Reader.traf_fragrun t off) = header_fits (Reader.traf_fragrun t off).
+Proof.
+  intros t off d H. unfold run_consistent, without_run_consistent, Reader.traf_fragrun. rewrite H.
+  cbn [fr_has_trun fr_sample_count fr_sizes fr_durations fr_cts fr_flags fr_data_offset is_nil].
+  split; reflexivity.
+Qed.
+Print Assumptions traf_without_trun_consistent.
 
 (** ** Known finding D94: several track runs in one track fragment.
     ISO/IEC 14496-12 8.8.8 allows any number of [trun] boxes in a [traf]; [TrafBox] has one slot and [TrafBox::read_box]
